@@ -61,6 +61,10 @@ pub fn sources() -> &'static Vec<(&'static str, String)> {
         // the same statement number and the same target, once with an 11-bit and once with a 9-bit field
         v.push(("jsr-600-ahead", "jsr far\nhalt\n.blkw #600\nfar ret\n".to_string()));
         v.push(("br-600-ahead", "br far\nhalt\n.blkw #600\nfar ret\n".to_string()));
+        // a forward reference that is resolved at backpatch, and the same source without the
+        // definition (and without any label of its own)
+        v.push(("forward-ref-to-done", "brz done\nadd r0 r0 r0\ndone halt\n".to_string()));
+        v.push(("forward-ref-without-definition", "brz done\nadd r0 r0 r0\n".to_string()));
         // a source of more than 64 KiB of text
         let mut big = String::new();
         for _ in 0..5200 {
@@ -197,7 +201,7 @@ pub fn run(ctx: &Ctx) -> i32 {
         ctx,
         acc,
         Level { category: "model_checking", bfs: Some((n, n, n, max_len as u64)) },
-        "every sequence of length 1..=4 over 34 sources (thorough: also every sequence of length 5 over the 28 fixed ones) (28 fixed ones, a source with 300 labels and two small ones mentioning some of them, the same far reference through an 11-bit and a 9-bit field, a source of more than 64 KiB) (valid ones, and one failing at every error site of the assembler) (valid, failing at each stage, sharing and re-using label names) assembled on one thread with reset_state()+reclaim between elements; each element's result (image, origin, breakpoints, spans, or diagnostic incl. rendering) compared with the same source on a fresh thread; states = sequences (no merging: equality of the merged states is the property itself); distinct_nontrivial = sequences of length >= 2 that agreed",
+        "every sequence of length 1..=4 over 36 sources (thorough: also every sequence of length 5 over the 28 fixed ones) (28 fixed ones, a source with 300 labels and two small ones mentioning some of them, the same far reference through an 11-bit and a 9-bit field, a forward reference with and without its definition, a source of more than 64 KiB) (valid ones, and one failing at every error site of the assembler) (valid, failing at each stage, sharing and re-using label names) assembled on one thread with reset_state()+reclaim between elements; each element's result (image, origin, breakpoints, spans, or diagnostic incl. rendering) compared with the same source on a fresh thread; states = sequences (no merging: equality of the merged states is the property itself); distinct_nontrivial = sequences of length >= 2 that agreed",
         true,
         &["ok-after-failure", "failure-after-ok", "some-source-ok", "stage-lex", "stage-parse", "stage-backpatch", "stage-emit"],
         &["a fresh OS thread has the thread-local state of a fresh process", "diagnostic rendering is deterministic for equal (report, source)"],
